@@ -304,6 +304,25 @@ func (r *run) electionTxs(stage int) []*transaction.Transaction {
 	return txs
 }
 
+// notarySetupTxs: once the Notary contract is active a notary node is designated and two accounts make deposits,
+// so that notary-assisted (sponsored) transactions become possible.
+func (r *run) notarySetupTxs() []*transaction.Transaction {
+	var txs []*transaction.Transaction
+	if r.P.BC.GetContractState(nativehashes.Notary) == nil {
+		return nil
+	}
+	if tx, _ := r.prod.buildTx(Op{Kind: OpDesignate, A: 2, B: 5, X: 3, Y: 0}, nil); tx != nil {
+		txs = append(txs, tx)
+	}
+	for _, a := range []int{0, 1} {
+		if tx, _ := r.prod.buildTx(Op{Kind: OpNotary, A: a, X: 0, Y: 15, N: 1980}, nil); tx != nil {
+			txs = append(txs, tx)
+		}
+	}
+	r.out.Probes["notary_setup_block"]++
+	return txs
+}
+
 // produce builds, signs and adds the next block on P and records the reference observation.
 func (r *run) produce(bp BlockPlan, pre []*transaction.Transaction) (*block.Block, bool) {
 	P := r.P
@@ -337,6 +356,14 @@ func (r *run) produce(bp BlockPlan, pre []*transaction.Transaction) (*block.Bloc
 		}
 		r.out.Probes["op_"+opNames[o.Kind]]++
 		r.log.Addf("op %s", desc)
+		if tx.HasAttribute(transaction.NotaryAssistedT) {
+			r.out.Probes["notary_assisted_tx"]++
+			// a second one for the same payer in the same block
+			if tx2, _ := r.prod.notaryAssistedTx(o); tx2 != nil && bc.PoolTx(tx2) == nil {
+				r.out.Probes["notary_assisted_tx"]++
+				r.out.Probes["two_notary_txs_same_payer_same_block"]++
+			}
+		}
 	}
 	txs := bc.GetMemPool().GetVerifiedTransactions()
 	txs = bc.ApplyPolicyToTxSet(txs)
@@ -508,6 +535,9 @@ func (r *run) runReplicated() {
 		}
 		if bi == 1 || bi == 2 {
 			pre = r.electionTxs(bi)
+		}
+		if bi == 6 && r.plan.Proto.P2PSig {
+			pre = r.notarySetupTxs()
 		}
 		b, ok := r.produce(bp, pre)
 		if !ok {
